@@ -196,8 +196,10 @@ def gen_cases(rng, tier):
     nm = [["sensor/sample", [["string", "unit"], ["float", "reading"]]], ["sensor/counter", [["string", "unit"], ["float", "reading"]]]]
     ty = [["t/ty", [["string", "unit"], ["float", "reading"]]], ["t/ty", [["string", "unit"], ["varint", "reading"]]]]
     ty2 = [["t/ty2", [["varint", "k"], ["string", "s"]]], ["t/ty2", [["uint16", "k"], ["bytes", "s"]]]]
+    # ... or only in the ORDER of their fields (another field list, another descriptor)
+    pm = [["t/perm", [["string", "a"], ["varint", "b"], ["string", "c"]]], ["t/perm", [["varint", "b"], ["string", "c"], ["string", "a"]]]]
     for pair in (cx, list(reversed(cx)), ev, list(reversed(ev)), nm, list(reversed(nm)), ty, list(reversed(ty)), ty2,
-                 list(reversed(ty2))):
+                 list(reversed(ty2)), pm, list(reversed(pm))):
         for _ in range(2 * n):
             recs = [_gen_rec(r, pair[0])] + [_gen_rec(r, r.choice(pair)) for _ in range(r.randint(1, 3))] + [_gen_rec(r, pair[1])]
             cases.append({"kind": "seq", "recs": recs, "stop": not r.chance(30)})
